@@ -156,8 +156,8 @@ func (p part) sql() (sql string, args []interface{}, err error) {
 		return "SELECT UploadID, RecordID FROM RecordLabels WHERE Name = ? AND Value < ?", []interface{}{p.key, p.value}, nil
 	case gt:
 		if p.value == "" {
-			// Simplify queries for any value.
-			return "SELECT UploadID, RecordID FROM RecordLabels WHERE Name = ?", []interface{}{p.key}, nil
+			// Any value that is greater than the empty string.
+			return "SELECT UploadID, RecordID FROM RecordLabels WHERE Name = ? AND Value > ''", []interface{}{p.key}, nil
 		}
 		return "SELECT UploadID, RecordID FROM RecordLabels WHERE Name = ? AND Value > ?", []interface{}{p.key, p.value}, nil
 	case ltgt:
